@@ -172,6 +172,11 @@ func (t *Input) reflectSetKey(rv reflect.Value, key string, v interface{}) (err 
 
 func (t *Input) reflectSet(rv reflect.Value, v interface{}) (err error) {
 	if rv.CanSet() {
+		if v == nil {
+			// A null, such as an element of a list, is the zero value.
+			rv.Set(reflect.Zero(rv.Type()))
+			return
+		}
 		vv := reflect.ValueOf(v)
 		vt := vv.Type()
 		if vt.AssignableTo(rv.Type()) {
